@@ -97,6 +97,31 @@ def arg_field(expr, bindings):
     return None, "unrecognised"
 
 
+def fold_const_args(db, entry):
+    """a `{}` placeholder filled by a crate `const NAME: &str` is literal text of the template
+    (`write!(f, "{}:..", TRANSACTION_TAG, ..)` writes the same bytes as `"Transaction:.."`)"""
+    changed = False
+    pieces = []
+    for p in entry.pieces:
+        if "arg" in p and p.get("trait") == "Display" and p["arg"] < len(entry.args):
+            ex = entry.args[p["arg"]].strip()
+            if re.fullmatch(r"(?:[A-Za-z_][A-Za-z0-9_]*::)*[A-Z][A-Z0-9_]*", ex):
+                last = ex.split("::")[-1]
+                cs = [c for d, c in db.consts.items() if (d == last or d.endswith("::" + last)) and "str" in c]
+                opts = p.get("opts", "")
+                if len(cs) == 1 and "width: None" in opts and "precision: None" in opts:
+                    p = {"lit": cs[0]["str"]}
+                    changed = True
+        if "lit" in p and pieces and "lit" in pieces[-1]:
+            pieces[-1] = {"lit": pieces[-1]["lit"] + p["lit"]}
+        else:
+            pieces.append(dict(p))
+    if changed:
+        entry.pieces = pieces
+        entry.template = "".join(p["lit"] if "lit" in p else "{%d}" % p["arg"] for p in pieces)
+    return entry
+
+
 class Writers:
     def __init__(self, db):
         self.by_type = {}
@@ -106,11 +131,11 @@ class Writers:
             if "write!" not in f["macros"] and "writeln!" not in f["macros"]:
                 continue
             t = base_type(f["impl_self"])
-            self.by_type.setdefault(t, []).append(WriterEntry(f))
+            self.by_type.setdefault(t, []).append(fold_const_args(db, WriterEntry(f)))
         self.nested = {}
         for f in db.fmt:
             if f["impl_trait"].endswith("Display") and f["fns"][:1] == ["fmt"] and "format!" in f["macros"]:
-                self.nested.setdefault(base_type(f["impl_self"]), []).append(WriterEntry(f))
+                self.nested.setdefault(base_type(f["impl_self"]), []).append(fold_const_args(db, WriterEntry(f)))
 
     def literals(self, ty):
         """all literal text a type's Display can emit (own templates only)"""
